@@ -72,6 +72,18 @@ Theorem C03_and_partial : forall s t l1 l2, good_span_b SNPM s = true -> good_sp
 Proof. exact and_sound. Qed.
 Print Assumptions C03_and_partial.
 
+(* the side conditions are met by, for instance, the two spans of >=1.2.0 <2.0.0 *)
+Example C03_and_domain_inhabited :
+  match parse_set_of SNPM ">=1.2.0", parse_set_of SNPM "<2.0.0" with
+  | Ok A, Ok B =>
+      match set_span A, set_span B with
+      | [s], [t] => good_span_b SNPM s && good_span_b SNPM t && no_point_contact_b SNPM s t
+      | _, _ => false
+      end
+  | _, _ => false
+  end = true.
+Proof. vm_compute. reflexivity. Qed.
+
 (* the || level is canon on the collected spans: C09_canon_partial *)
 Theorem C03_or_partial : forall l, c09_dom_b SNPM l = true ->
   exists r, canon_spans l = Ok r /\ forall v, in_spans SNPM true r v = in_spans SNPM true l v.
